@@ -409,6 +409,24 @@ def bit3(ctx):
                 heap = {"self": s0}
                 if run(set_node, [selfref, K(k), opt(0, None)], heap) != "diverge":
                     frame(heap["self"], k, sh, "set_node(%s, None)" % k, sname, set_node, opt(0, None))
+            # the presence predicates agree with get_node
+            for pname, want in (("is_node_some", 1 if present else 0), ("is_node_none", 0 if present else 1)):
+                pb = lib.body(SEG + "::" + pname)
+                if pb is None:
+                    continue
+                g = run(pb, [selfref, K(k)], {"self": s0})
+                n += 1
+                if g != ("bool", want):
+                    r.report("BIT-3|%s|%s|%s" % (pname, k, sname), fn_loc(pb), pb.path,
+                             "%s(%s) on place {%s}: %s, but get_node(%s) is %s there" % (pname, k, sname, _show(g) if g != "diverge" else g, k, "Some(..)" if present else "None"))
+            for pname, want in (("is_place_some", 0 if sname == "None" else 1), ("is_place_none", 1 if sname == "None" else 0)):
+                pb = lib.body(SEG + "::" + pname)
+                if pb is None or k != live[0]:
+                    continue
+                g = run(pb, [selfref], {"self": s0})
+                n += 1
+                if g != ("bool", want):
+                    r.report("BIT-3|%s|%s" % (pname, sname), fn_loc(pb), pb.path, "%s() on place {%s}: %s" % (pname, sname, _show(g) if g != "diverge" else g))
             # node_match
             if node_match is not None:
                 for mv, mname in ((opt(0, None), "None"), (v, "Some(v)")):
